@@ -2129,6 +2129,7 @@ package desync
 
 //# the parallel file chunker is outside the reach of these contracts (see C02); for callers it is a function
 //# that reads a file and returns an index, without touching the caller's data structures
+//@ ghost var $ifalg int
 //@ func IndexFromFile
 //@   prop C07 C02 C06
 //@   safety none
@@ -2148,6 +2149,12 @@ package desync
 //@   assert@loop4.iterend w.err == nil && !w.eof
 //@   assert@loop4.break w.err == nil && w.eof
 //@   ensures r2 == nil ==> len(r0.Chunks) == $fed
+//# C02, the digest flag: whatever feature flags the first element of the input contributes (a catar carries the
+//# SHA512/256 bit), the flag of the returned index says which digest the chunk IDs were calculated with
+//@   ghost@after:Algorithm $ifalg = $r0
+//@   loop 4: invariant (index.Index.FeatureFlags & CaFormatSHA512256 != 0 <==> $ifalg == crypto.SHA512_256)
+//@   loop 5: invariant (index.Index.FeatureFlags & CaFormatSHA512256 != 0 <==> $ifalg == crypto.SHA512_256)
+//@   assert@returned $ret2 == nil ==> ($ret0.Index.FeatureFlags & CaFormatSHA512256 != 0 <==> $ifalg == crypto.SHA512_256)
 
 //@ func NewProgressBar
 //@   trusted
